@@ -31,6 +31,7 @@ structure RR where
   dstPort : Option Nat := none
   ipv4 : Option Nat := none       -- fixed32
   ipv6 : Option Bytes := none
+  tparams : Bool := false         -- transport_params present (the registrar's parameter override)
 deriving DecidableEq, Repr
 
 def srcDetector : Nat := 1
@@ -47,6 +48,7 @@ structure Msg where
   libVer : Nat                    -- client_lib_version
   prescanned : Bool               -- flags.prescanned
   rr : Option RR
+  disableOverrides : Bool := false  -- registration_payload.disable_registrar_overrides
 deriving DecidableEq, Repr
 
 /-- outcome of `NewRegistration` for one family -/
@@ -68,6 +70,24 @@ structure Oracles where
   live : Bool                     -- what the liveness tester answers for the IPv4 phantom
   ident : String                  -- transport.GetIdentifier(reg)
 deriving DecidableEq, Repr
+
+/-- the transport's verdicts on the registrar's parameter override (`RegistrationResponse.TransportParams`) -/
+structure RROracles where
+  paramsOk : Bool                 -- transport.ParseParams(registrar's parameters) succeeds
+  tpPort : Option Nat             -- transport.GetDstPort with the registrar's parameters
+deriving DecidableEq, Repr
+
+/-- `NewRegistrationC2SWrapper` replaces the client's transport parameters by the registrar's when the
+response carries some and the client did not disable registrar overrides.  The replacement is made on
+the payload that both families are built from, so it holds for both. -/
+def paramsOverridden (m : Msg) : Bool :=
+  match m.rr with
+  | some rr => rr.tparams && !m.disableOverrides
+  | none => false
+
+/-- the verdicts on the parameters that are in force -/
+def resolveOracles (m : Msg) (o : Oracles) (ro : RROracles) : Oracles :=
+  if paramsOverridden m then { o with paramsOk := ro.paramsOk, tpPort := ro.tpPort } else o
 
 /-- a wire message: undecodable bytes, or a decoded wrapper with its library verdicts -/
 inductive Wire
